@@ -146,7 +146,9 @@ class Edge:
         self.other_binding = False                   # some other indented binding (gives a scope)
         self.rule_restat = None                      # None | b'1' | b''
     def scoped(self):
-        return self.bind == 'edge' or self.own_restat is not None or self.other_binding
+        # since "fix: give an edge whose dyndep binding comes from its rule a scope of its own" the parser allocates a scope
+        # for every statement that has a dyndep binding, also when it comes from the rule
+        return self.bind is not None or self.own_restat is not None or self.other_binding
     def copy(self):
         e = Edge(); e.__dict__.update({k: (list(v) if isinstance(v, list) else v) for k, v in self.__dict__.items()})
         return e
